@@ -709,6 +709,7 @@ Proof.
     destruct (existsb (cs_listed (m_db m)) mk) eqn:El; cbn [fst snd].
     + (* the purge transaction fails as a whole: nothing is purged; the sweep still runs *)
       cbn [map app].
+      cbn [cs_del_seq].
       set (sw := map SDel (map fst (filter (fun p => negb (cs_has_msg (m_db m) (fst p))) (m_store m)))).
       change (cs_broadcast ++ SConn 9 :: SBegin :: SRead :: SCommit :: SList :: SRead :: sw)
         with (cs_broadcast ++ [SConn 9; SBegin; SRead; SCommit; SList; SRead] ++ sw).
@@ -725,7 +726,7 @@ Proof.
       * unfold sw. cbn [cs_broadcast app cs_commits]. rewrite commits_dels. lia.
     + set (dm := map (fun id => SStmt (StDeleteMsg id)) mk).
       set (d1 := fold_left (fun x id => cs_run_stmt (StDeleteMsg id) x) mk (m_db m)).
-      set (sw := map SDel (map fst (filter (fun p => negb (cs_has_msg d1 (fst p))) (m_store m)))).
+      set (sw := map SDel (map fst (filter (fun p => negb (cs_has_msg d1 (fst p))) (cs_del_seq (m_store m) mk)))).
       assert (Hunl : forall id, In id mk -> cs_listed (m_db m) id = false).
       { intros id Hid. destruct (cs_listed (m_db m) id) eqn:E; [|reflexivity].
         assert (existsb (cs_listed (m_db m)) mk = true) by (apply existsb_exists; exists id; auto). congruence. }
